@@ -72,8 +72,12 @@ class Entropy(object):
     def __init__(self):
         self.counter = 0
         self.calls = []
+        self.constant = False    # True: the answer depends on the requested length only
 
     def urandom(self, n):
+        if self.constant:
+            self.calls.append(n)
+            return bytes((i * 7 + n) % 256 for i in range(n))
         out = bytearray()
         while len(out) < n:
             self.counter += 1
